@@ -262,7 +262,7 @@ def _is_panic_block(fn, b):
 PRECISION_FLOOR = {"x86": 6, "x86-rayon": 6, "arm": 9, "arm-rayon": 9, "wasm": 0}
 
 
-def t_precision(rep, prog, rule):
+def t_precision(rep, prog, rule, report_empty=True):
     rep.rule(rule, "every switch on Normalizer16/32::precision() has an arm for each value the "
              "normaliser's constructor can produce that lies between two explicit arms (table "
              "hole), arm k instantiates the kernel with const PRECISION = k, and no arm for a "
@@ -293,7 +293,10 @@ def t_precision(rep, prog, rule):
             calls = [c for c in sw.arm_calls(tgt) if prog.call_targets(c)]
             key = "%s|arm%d" % (key0, v)
             if not calls:
-                if v in vals:
+                if v in vals and not report_empty:
+                    rep.ok(rule, key, where, "empty arm (no panic; the missing computation is "
+                           "reported under C02/C05)")
+                elif v in vals:
                     rep.bad(rule, "%s|empty" % key, where,
                             "arm %d of the precision table in %s is empty although "
                             "%s::new can produce precision %d (interval %s): nothing is computed"
